@@ -33,6 +33,8 @@ func runC10(c *Ctx) {
 	r.Rule("R2-every-field-serialised", "every SessionState field except the reviewed runtime helpers has a unique msgpack key", 10)
 	r.Rule("R3-split-join-agreement", "splitter and loader number parts through splitCookieName from 0 by 1; loader prefers the unsplit cookie, joins in index order; chunks are consecutive slices", 6)
 	r.Rule("R4-stale-parts-expired", "the cookie store's Save reads the presented jar, unconditionally on every successful save, and expires every presented session cookie it did not write", 5)
+	r.Rule("R12-part-names-match-the-sweep", "the part names the splitter and loader use are always name_i, the form Clear and the stale-cookie sweep select by (KNOWN FINDING on the unchanged tree: defect 18, shared with C11.R12)", 1)
+	runPartNamesMatchTheSweep(c, "R12-part-names-match-the-sweep")
 	r.Rule("R5-size-bound", "split threshold <= 4096; every emitted chunk and the unsplit cookie were measured against it", 3)
 	r.Rule("R6-clear", "Clear sweeps all presented session cookies; Manager.Clear deletes the stored session (shared with C11.R2/R3)", 8)
 	r.Rule("R10-store-ttl", "the stored entry's TTL is Cookie.Expire, handed unchanged from ticket.saveSession to the redis SET (shared with C09.R5): the entry lives as long as the cookie naming it", 5)
